@@ -27,7 +27,7 @@ class Convert(Contract):
     into the destination format under the destination's rounding and overflow modes; the shape is preserved,
     the source is unchanged, and (for routes that create an object) nothing mutable is shared."""
     name = 'objects:Fxp.convert-routes'
-    primary = ['C10', 'C20']
+    primary = ['C10', 'C20', 'C03', 'C05']      # conversions re-quantize (C05) and, under wrap, reinterpret the word (C03): every configuration
     secondary_stride = 3
     layer = 5
     uses = LOWER
